@@ -2,4 +2,4 @@ From Coq Require Import Reals List Extraction ExtrOcamlBasic.
 From OSU.Extract Require Import RFloat.
 From OSU.Lib Require Import InterpAuxDefs.
 From OSU.Model Require Import Interp.
-Extraction "../build/ex/C13/model.ml" ssr enclosing frac frac_n rint interp_axis1 interp_axis interp_variable mkvar interp_nd spectrum_interp1 energy_interp1.
+Extraction "../build/ex/C13/model.ml" ssr enclosing frac frac_n rint interp_axis1 interp_axis interp_variable mkvar interp_nd spectrum_interp1 energy_interp1 interp_grid2.
